@@ -8,6 +8,14 @@ CHECKS = {
          "Every string over the lexer-significant alphabet up to the length bound and every fragment sequence up to the bound is rendered by the real code and compared with the identity / concatenation oracle; within the bound the result is a coverage statement, not a sample.",
          "Assumes the symbol alphabet represents the lexer's case distinctions (it contains every byte the lexer tests for plus control/high/multi-byte representatives); canonical spelling of verbatim delimiters.",
          "DESIGN.md §3 C06"),
+ "C17": ("bounded-exhaustive enumeration of inputs (every BMP scalar; all strings up to a length over special-symbol alphabets) per escaping filter, executed through ApplyFilter and the template syntax",
+         "Each escaping filter is run on every BMP code point and on every string up to the bound over three alphabets of dangerous symbols, by both application routes, and judged by the statement's predicates with independent decoders; within the bounds this is exhaustive.",
+         "Independent decoders (html.UnescapeString, url.QueryUnescape, own \\uXXXX decoder) are trusted; exact-value oracles for escapejs/iriencode on valid UTF-8 only. One fixture-pinned deviation of escapejs is a recorded known finding.",
+         "DESIGN.md §3 C17"),
+ "C18": ("bounded-exhaustive sweep of each data filter's argument window (bounds, widths, counts, positions, value grids) over sequence kinds and string lengths, compared with independent reference functions",
+         "For every filter the whole integer window and every input length up to the bound is executed through ApplyFilter and through the template syntax and compared with a small independent reference (exact) or shape predicate (layout filters).",
+         "Reference functions are written from Django's documentation and the repository fixtures; behaviour the property leaves open (listed in the evidence assumptions) is executed but not judged.",
+         "DESIGN.md §3 C18"),
 }
 
 NOT_YET = {}
